@@ -31,7 +31,8 @@ error_iff error_small no_other_errors'''.split()
 THEOREMS = ['FFVerif.C03a.' + t for t in THEOREMS_A] + ['FFVerif.C03c.' + t for t in THEOREMS_C] \
     + ['FFVerif.C03d.' + t for t in THEOREMS_D]
 LEAN_MODULES = ['FFVerif.Props.C03a', 'FFVerif.Props.C03c', 'FFVerif.Props.C03d']
-PINS = ['pinConcatenate', 'pinConcatenateWithoutFF', 'pinControlMatrixFromAtomic']
+PINS = ['pinConcatenate', 'pinConcatenateWithoutFF', 'pinControlMatrixFromAtomic',
+        'pinBasisArrayFinalize', 'pinHashArray']
 GEN_SITES = ['einsum:numeric_calculate_control_matrix_from_atomic_0',
              'einsum:numeric_calculate_pulse_correlation_filter_function_0',
              'einsum:numeric_calculate_pulse_correlation_filter_function_1',
@@ -176,7 +177,10 @@ def correspondence(ctx):
 # ------------------------------------------------------------------------------------------------
 def make_list(rng, nP, sharing, d, incomplete=False, clash=False):
     """list of compatible pulse descriptions (same d, same basis)"""
-    if incomplete:
+    if incomplete and rng.random() < 0.5:
+        # cut out of a complete Basis object by indexing
+        basis = ('derived', ('pauli',) if d == 2 else ('ggm',), 'subset', int(rng.integers(0, 2**31)))
+    elif incomplete:
         basis = ('custom', gens.rotated_basis(rng, d, False)[:int(rng.integers(1, d*d))], False,
                  'Custom')
     else:
@@ -532,6 +536,20 @@ def search(ctx, deep=False):
          ('thorough', True): 2500}[(ctx.tier, deep)]
     for k in (0, 1):
         check_suffix_collision(ctx, {'k': k})
+    # incomplete bases cut out of a complete Basis object, shared noise operators, a calculation
+    # that could reuse the atomic control matrices (it must not: the basis is incomplete)
+    for k in range(4 if ctx.tier == 'quick' and not deep else 30):
+        d = int(rng.choice([2, 3]))
+        descs = make_list(rng, int(rng.integers(2, 4)), 'shared', d, incomplete=True)
+        while descs[0]['basis'][0] != 'derived':
+            descs = make_list(rng, len(descs), 'shared', d, incomplete=True)
+        om = np.sort(rng.uniform(0.1, 6, 5))
+        check_concat(ctx, {'descs': descs, 'states': [str(rng.choice(['nothing', 'cm_same', 'diag']))
+                                                      for _ in descs],
+                           'omega': om, 'omega2': np.sort(rng.uniform(0.1, 6, 5)),
+                           'options': {'calc_ff': True, 'omega_given': True,
+                                       'which': str(rng.choice(['fidelity', 'generalized'])),
+                                       'pc': bool(k % 2)}})
     for i in range(n):
         nP = int(rng.choice([1, 2, 2, 3, 3, 4]))
         d = int(rng.choice([2, 2, 3]))
